@@ -57,6 +57,21 @@ def b_or(a, b):
     return out
 
 
+def b_join0(a, b):
+    """either a or b, where a constant 0 bit on one side stands for "absent" (zero padding): the other side's bit is kept"""
+    out = []
+    for x, y in zip(a, b):
+        if x == y:
+            out.append(x)
+        elif x == '0' and y not in ('1', 'X'):
+            out.append(y)
+        elif y == '0' and x not in ('1', 'X'):
+            out.append(x)
+        else:
+            out.append('X')
+    return out
+
+
 def b_shl(a, n):
     return ['0'] * n + a[:W - n]
 
@@ -87,13 +102,20 @@ def b_add_const(a, c):
 class Env:
     """variable id -> abstract bit vector"""
 
-    def __init__(self, f):
+    def __init__(self, f, leaf=None, through_locals=False):
         self.f = f
         self.vars = {}
+        self.leaf = leaf                      # callable(expr) -> bit vector or None: symbolic sources (array elements, loads)
+        self.through_locals = through_locals  # read single-assignment locals through their initialiser
+        self.depth = 0
 
     def eval(self, e):
         if e is None:
             return ['X'] * W
+        if self.leaf is not None:
+            r = self.leaf(e)
+            if r is not None:
+                return r
         cv = const_val(e)
         if cv is not None and e.get('k') in ('int',) or (cv is not None and e.get('k') == 'cast' and const_val(e.get('e')) is not None):
             return const_bits(cv & 0xffffffff)
@@ -122,7 +144,27 @@ class Env:
         if k == 'var':
             if e.get('id') in self.vars:
                 return list(self.vars[e['id']])
+            if self.through_locals and e.get('vk') == 'local' and self.depth < 8:
+                import q as _q
+                d = _q.single_defs(self.f).get(e['id'])
+                if d is not None:
+                    self.depth += 1
+                    try:
+                        r = self.eval(d)
+                    finally:
+                        self.depth -= 1
+                    # the declared type of the local truncates / extends like a cast
+                    t = T(self.f, e.get('dt') or e.get('t'))
+                    bits = t.get('bits', 32)
+                    if bits < 32:
+                        fill = r[bits - 1] if t.get('sg') else '0'
+                        r = r[:bits] + [fill] * (W - bits)
+                    return r
             return ['X'] * W
+        if k == 'temp':
+            return self.eval(e['e'])
+        if k == 'cond':
+            return b_join0(self.eval(e['x']), self.eval(e['y']))
         if k == 'bin':
             op = e['op']
             if op in ('&', '|'):
